@@ -10,6 +10,7 @@ mod s_chain;
 mod s_determ;
 mod s_engine;
 mod s_expr;
+mod s_keys;
 mod s_limits;
 mod s_params;
 mod s_print;
@@ -42,6 +43,7 @@ fn main() {
         "snapshot" => s_snapshot::run(&opts),
         "print" => s_print::run(&opts),
         "params" => s_params::run(&opts),
+        "keys" => s_keys::run(&opts),
         "parsetext" => s_print::parsetext(),
         other => {
             eprintln!("unknown stream {other}");
